@@ -163,3 +163,36 @@ Print Assumptions C10_chained_not_farther_refuted.
 Example C10_ex_cascade_strict : region_of w_cascade44 = RSeveral /\ shallow_secondb w_cascade44 = false /\
   exists order, resolve ch0 dis0 w_cascade44 = Ok order /\ chain_order_ok w_cascade44 order = true.
 Proof. exact (proj2 cascade44_clean). Qed.
+
+(* ================= round 3: a fourth region of the chained case =================
+   [two_feeders_b] (theories/Pipeline/TwoPaths.v): some doubly provided entity k has exactly one provider R that requires k
+   itself (the end of the chain) and R transitively requires outputs of at least TWO other consumers of k.  graph.FindCycle(k)
+   returns one cycle; only the consumer on it stays in front of R, the other one is re-attached behind R although R needs it:
+   "topological sort failure" under both the identity and the reversed map orders, although the validator of C10
+   ([order_ok], C10_order_checker_sound) accepts the order T, X, Y, R.  With one such consumer (the built-in
+   TreeDiff / BlobCache / RenameAnalysis shape: [one_path_resolved]) the set is resolved. *)
+From Herc Require Import Pipeline.TwoPaths Pipeline.TwoPathsProofs.
+
+Theorem C10_chained_two_feeders_refuted : exists dis items good,
+  domain_okb dis items = true /\ region_of items = RRenames /\ shallow_secondb items = false /\
+  two_feeders_b items = true /\
+  resolve ch0 dis items = Err SortFailure /\ resolve ch_rev dis items = Err SortFailure /\
+  order_ok items good = true.
+Proof. exact chained_two_feeders_refuted. Qed.
+Print Assumptions C10_chained_two_feeders_refuted.
+
+Example C10_ex_one_feeder_resolved : region_of w_one_path = RRenames /\ two_feeders_b w_one_path = false /\
+  exists order, resolve ch0 dis0 w_one_path = Ok order /\ order_ok w_one_path order = true.
+Proof. exact one_path_resolved. Qed.
+
+(* A region OUTSIDE the domain in which Initialize succeeds and loses an item: [collision_only_b]
+   (theories/Pipeline/NameCollision.v) - two items called X and an item literally called "X_1", the node name resolve
+   generates for the first X (here dis0 1 1 = 101): the two share one graph node and one slot of name2item.  The item set is
+   otherwise harmless: one provider per entity, nothing unsatisfied, nothing cyclic. *)
+From Herc Require Import Pipeline.NameCollision Pipeline.NameCollisionProofs.
+
+Theorem C10_name_collision_lost_item_refuted : exists ch dis items order,
+  collision_only_b dis items = true /\ max_providers items = 1%nat /\ unsatisfiedb items = false /\ cyclicb items = false /\
+  resolve ch dis items = Ok order /\ ~ Permutation order items.
+Proof. exact name_collision_lost_item_refuted. Qed.
+Print Assumptions C10_name_collision_lost_item_refuted.
